@@ -179,6 +179,10 @@ def main():
             random.seed(f"global-{v['seed']}-{v['shard']}-0")
             mod.run(ctx)
             ctx.violations = [x for x in ctx.violations if x.get("key") == rec.get("key") or (rec.get("key") == "unclassified" and x.get("key") is None)]
+            if not ctx.violations:
+                # the re-run shard judged other cases; that says nothing about the recorded one
+                ctx.judged = 0
+                ctx.reasons["shard re-run did not reproduce the recorded key"] = 1
         for x in ctx.violations[:5]:
             print("VIOLATED", x["key"], x["what"])
         print("replay verdict:", "violated" if ctx.violations else ("held" if ctx.judged else "inconclusive"), ctx.reasons)
